@@ -1,10 +1,10 @@
 """C20 - Single-threaded API behaviour (decided clause: counter / functor-flag / return-value consistency on every path, DESIGN.md §4 C20)."""
 from sa import run as _run
-from . import e9
+from . import e9, cmp
 
 PROPERTY = "C20"
 LEVEL = "other"
-FILES = r"^%s/cds/(intrusive|container)/" % _run.REPO
+FILES = r"^%s/cds/(intrusive|container|opt)/" % _run.REPO
 NAMES = r"."
 TUS = {
     "quick": ["test/unit/intrusive-list/intrusive_michael_hp.cpp", "test/unit/intrusive-list/intrusive_lazy_rcu_gpb.cpp",
@@ -12,7 +12,8 @@ TUS = {
               "test/unit/intrusive-list/intrusive_iterable_dhp.cpp", "test/unit/intrusive-set/intrusive_skiplist_hp.cpp",
               "test/unit/tree/intrusive_ellenbintree_hp.cpp", "test/unit/intrusive-set/intrusive_feldman_hashset_hp.cpp",
               "test/unit/queue/msqueue_hp.cpp", "test/unit/stack/treiber_stack_hp.cpp", "test/unit/striped-set/intrusive_cuckoo_set.cpp",
-              "test/unit/striped-set/set_std_set.cpp", "test/unit/queue/basket_queue_hp.cpp", "test/unit/queue/optimistic_queue_hp.cpp"],
+              "test/unit/striped-set/set_std_set.cpp", "test/unit/queue/basket_queue_hp.cpp", "test/unit/queue/optimistic_queue_hp.cpp", "test/unit/intrusive-set/intrusive_split_michael_hp.cpp",
+              "test/unit/set/split_lazy_hp.cpp", "test/unit/set/split_iterable_hp.cpp"],
     "thorough": ["test/unit/intrusive-list/*.cpp", "test/unit/intrusive-set/*.cpp", "test/unit/tree/intrusive_*.cpp", "test/unit/queue/*.cpp",
                  "test/unit/stack/*.cpp", "test/unit/striped-set/*.cpp", "test/unit/pqueue/*.cpp"],
 }
@@ -40,5 +41,12 @@ def r20_2(ctx):
 r20_2.rule_id = "R20.2"
 
 
-RULES = [r20_1, r20_2]
-FLOORS = {"R20.1": 200, "R20.2": 100}
+def r20_3(ctx):
+    n = cmp.rule_orientation(ctx, "R20.3", r"/cds/(intrusive|container|opt)/", R)
+    if n < 20:
+        ctx.broken("only %d oriented comparator returns found" % n)
+r20_3.rule_id = "R20.3"
+
+
+RULES = [r20_1, r20_2, r20_3]
+FLOORS = {"R20.1": 200, "R20.2": 100, "R20.3": 20}
